@@ -202,24 +202,25 @@ void exec_op(Ad* ad, const POp& p, OpRec& o, const Recorder& rec, int tid) {
     o.a = p.value;
     T v = E::make(p.value);
     if (E::owned)
-      elems().to_queue(p.value);
+      elems().pushing(p.value);
     rec.begin(o);
     xrt::op_begin(Q_PUSH, p.weak || Ad::strong_lockfree);
     bool ok = ad->push(v, p.weak);
     xrt::op_end();
     o.r = ok ? 1 : 0;
     rec.end(o);
-    if (!ok && E::owned) {
-      elems().back_to_caller(p.value);
-      if (E::holds(v))
-        E::consume(v); // the caller still owns it and destroys it itself
-      else if (!Ad::push_by_value)
-        elems().err("elem-rejected-but-taken", fmt("rejected try_push took value %" PRId64 " away from the caller", p.value));
-    }
-    if (ok && E::owned && E::holds(v) && Ad::push_by_value) {
-      // by-value push of an owning type must have moved from our handle; a raw pointer handle is simply forgotten
-      if (E::queue_owns)
+    if (E::owned) {
+      elems().push_returned(p.value, ok);
+      if (!ok) {
+        if (E::holds(v))
+          E::consume(v); // the caller still owns it and destroys it itself
+        else if (!Ad::push_by_value)
+          elems().err("elem-rejected-but-taken", fmt("rejected try_push took value %" PRId64 " away from the caller", p.value));
+        else if (E::queue_owns && elems().alive(p.value))
+          elems().err("elem-leaked", fmt("value %" PRId64 " was rejected, taken from the caller and not destroyed", p.value));
+      } else if (E::holds(v) && Ad::push_by_value && E::queue_owns) {
         elems().err("elem-harness", "accepted push left the value in the caller's handle");
+      }
     }
     if (ok && std::is_pointer<T>::value)
       v = E::empty();
